@@ -20,7 +20,7 @@ from harness.props import c02_nm as nm
 
 # identifiers fixed by coq/theories/C02/Spec.v
 RESERVED = ['K', 'KA', 'CL', 'V', 'Q', 'VSS', 'V1', 'V2', 'V3', 'V4', 'Q2', 'Q3', 'Q4',
-            'K12', 'K21', 'K13', 'K31', 'K23', 'K32', 'K24', 'K42', 'F', 'T']
+            'K12', 'K21', 'K13', 'K31', 'K23', 'K32', 'K24', 'K42', 'F', 'T', 'ALPHA', 'BETA', 'GAMMA', 'AOB']
 
 CORPUS_DIR = VERIF / 'harness' / 'props' / 'c02_corpus'
 
@@ -353,7 +353,7 @@ def nm_part(code):
     out = {}
     try:
         for k in text:
-            out[k] = nm.rename(nm.parse_code(text[k]), abbr)
+            out[k] = nm.tokens(text[k], abbr)          # tokens only: the code is read inside Coq (C02.Read)
     except nm.Unsupported as e:
         raise SkipCase('unsupported code: ' + str(e)[:30])
     except nm.ParseError as e:
@@ -476,7 +476,7 @@ def observe_hist(spec, perturb=None, mutate_code=None):
                 if j == ncomp + 1:
                     j = 0
                 kparams.append((i, j, f'(Sym {names.p(x)})'))
-    zero = []
+    zero = []                                  # only to choose the inputs; the verdict computes it from the read code
     for part in (pk, des, err):
         for x in nm.assigned(part):
             if x not in zero:
@@ -547,9 +547,10 @@ def observe_hist(spec, perturb=None, mutate_code=None):
         return ct.lst([ct.tup(ct.nat(i), ct.nat(j), e) for i, j, e in l])
 
     ids = lambda l: ct.lst([names.p(x) for x in l])
-    term = ('(mkH ' + ' '.join([
+    term = ('(mkHt\n  ' + nm.toks_term(pk, names) + '\n  ' + nm.toks_term(des, names) + '\n  ' + nm.toks_term(err, names)
+            + '\n  (fun pk des err zero => mkH ' + ' '.join([
         ct.nat(advan), ct.nat(trans),
-        '\n  ' + nm.term(pk, names), '\n  ' + nm.term(des, names), '\n  ' + nm.term(err, names),
+        '\n  pk des err',
         '\n  ' + ct.lst(before), '\n  ' + ct.lst(after),
         'None' if fterm is None else f'(Some {fterm})',
         '\n  ' + fl(flows),
@@ -557,11 +558,11 @@ def observe_hist(spec, perturb=None, mutate_code=None):
         fl(kparams),
         names.p(f'A({defobs})'), names.p(f'S{defobs}'),
         ct.lst([ct.tup(ct.nat(a), ct.nat(b), ct.nat(c)) for a, b, c in index]),
-        ids([x for x in cmp_b if x != 'DUMMYETA']), ids([x for x in cmp_a if x != 'F']), ids(zero),
+        ids([x for x in cmp_b if x != 'DUMMYETA']), ids([x for x in cmp_a if x != 'F']), 'zero',
         '\n  ' + ct.lst(rr_before), ct.lst(rr_after), fl(rr_flows),
         'None' if rr_f is None else f'(Some {rr_f})', ct.boolean(rr_ok),
         par_a, par_b, ct.boolean(rvs_equal),
-        '\n  ' + envterm]) + ')')
+        '\n  ' + envterm]) + '))')
     info.update({'ncomp': irinfo['ncomp'], 'index': index, 'n_pk': len(pk), 'n_err': len(err), 'n_des': len(des),
                  'nflows': len(flows), 'has_f': fterm is not None})
     return term, info
